@@ -7,7 +7,7 @@ predicate, F1 status forwarded unmodified to the .sol writer, T2 registry rows.
 import os, re
 from ..absint import IntervalSet, INF, FLIP
 from ..cfg import Facts, kids, strip, walk, cv, render, short_loc, call_args
-from ..facts import export_many, AnalysisBroken
+from ..facts import export_many, export, AnalysisBroken
 from ..flow import transitive_overriders, bare_ref, refs_to, is_write
 from .. import units
 
@@ -178,7 +178,7 @@ def lit_in(n):
 def run(rep, ctx):
     repo = ctx["repo"]
     vis = [u for u, k in units.UNITS.items() if k == "visitor"]
-    fn = [PRED_RE, r".*::HandleSolution", r"mp::SolutionAdapter::.*", r"mp::WriteSolFile",
+    fn = [PRED_RE, r"mp::FlatBackend::GetSolution", r".*::HandleSolution", r"mp::SolutionAdapter::.*", r"mp::WriteSolFile",
           r"mp::StdBackend::ReportSolution2AMPL", r"mp::StdBackend::SolveCode",
           r"mp::SolveResultRegistry::SolveResultRegistry"]
     jobs = [dict(unit=u, fn=fn, enum=[r"mp::sol::Status"], repo=repo) for u in vis]
@@ -191,6 +191,44 @@ def run(rep, ctx):
     F = Facts(res)
     rep.note_units([j["unit"] for j in jobs])
     rep.note_funcs(f for f in F.funcs if not f.is_dependent())
+
+    # ---- U1: who uses which class predicate ------------------------------------------------------------
+    u1 = rep.rule("C10.U1", "WHO", "every use of a solve-result class predicate is the predicate of the class that use is about (frozen use-site table)", floor=6)
+    USES = {
+        "mp::StdBackend::ReportStandardSuffixes": ({"IsProblemSolved"}, "condition numbers are reported for solved problems"),
+        "mp::StdBackend::ReportSolution2AMPL": ({"IsProblemSolvedOrFeasible"}, "objective value in the message iff a solution candidate is indicated"),
+        "mp::StdBackend::IsProblemInfOrUnb": ({"IsProblemIndiffInfOrUnb"}, "infeasible-or-unbounded includes the undecided class"),
+        "mp::MIPBackend::ReportRays": ({"IsProblemIndiffInfOrUnb", "IsProblemInfeasible", "IsProblemUnbounded"}, "primal ray: unbounded or undecided; dual ray: infeasible or undecided"),
+        "mp::MIPBackend::CalculateAndReportIIS": ({"IsProblemIndiffInfOrUnb", "IsProblemInfOrUnb"}, "IIS for infeasible / unbounded / undecided results"),
+        "mp::FlatBackend::GetSolution": ({"IsProblemInfeasible"}, "the 'known infeasible' flag of the solution check (sol:chk:infeas: 'check even infeasible solution candidates')"),
+    }
+    PN = r"::(IsProblemSolved|IsProblemSolvedOrFeasible|IsProblemInfeasible|IsProblemUnbounded|IsProblemIndiffInfOrUnb|IsProblemInfOrUnb)$"
+    found = {}
+    for u in vis:
+        if not u.endswith("visitorbackend.cc"):
+            continue
+        for fcg in export(u, callgraph=True, repo=repo)["callgraph"]:
+            hits = {c.split("\t")[1].split("::")[-1] for c in fcg["callees"] if re.search(PN, c.split("\t")[1])}
+            if hits:
+                found.setdefault(fcg["qn"], set()).update(hits)
+    for qn, (want, why) in sorted(USES.items()):
+        got = found.get(qn)
+        if got is None:
+            raise AnalysisBroken("C10.U1: use site %s not found" % qn)
+        u1.check(got == want, "site|" + qn.replace("mp::", ""), "", "%s uses %s (%s)" % (qn.replace("mp::", ""), sorted(want), why),
+                 "%s now classifies with %s instead of %s: %s - codes outside that class are treated as members of it" % (qn.replace("mp::", ""), sorted(got), sorted(want), why))
+    for qn in sorted(set(found) - set(USES)):
+        if re.search(PN, qn):
+            continue
+        raise AnalysisBroken("C10.U1: new use site %s of %s is not in the reference table (read it and extend the table)" % (qn, sorted(found[qn])))
+    # the flag really is what the checker is told
+    for f in F.funcs:
+        if f.qn == "mp::FlatBackend::GetSolution" and not f.is_dependent() and f.cfg is not None:
+            v = [x for x in f.walk() if x["k"] == "VarDecl" and kids(x) and "IsProblemInfeasible" in render(kids(x)[0])]
+            ps = [c for c in f.walk() if c["k"] == "CXXMemberCallExpr" and (c.get("callee") or "").endswith("::PostsolveSolution")]
+            okf = len(v) == 1 and len(ps) == 1 and any(x["k"] == "DeclRefExpr" and x.get("declId") == v[0]["declId"] for x in walk(ps[0]))
+            u1.check(okf, "flag-reaches-checker", short_loc(f.loc), "the predicate's value is the 4th element handed to PostsolveSolution (the checker's `known infeasible`)")
+            break
 
     # ---- T1 -------------------------------------------------------------
     t1 = rep.rule("C10.T1", "TABLE",
